@@ -256,7 +256,13 @@ class Sim:
                             var.update(v)
                         self.problem.update_optics()
                         m_ = self.merit()
-                        if m_ is not None and math.isfinite(m_) and \
+                        if rf >= 1e10:
+                            # the driver saw the ray fail, the final lens
+                            # lets it pass: is failure next door?
+                            if m_ is None or not math.isfinite(m_):
+                                found = True
+                                break
+                        elif m_ is not None and math.isfinite(m_) and \
                                 abs(m_ - rf) <= 1e-5 * abs(rf) + 1e-9:
                             found = True
                             break
@@ -455,7 +461,8 @@ class Sim:
             self.probe('returned_sentinel')
         else:
             okf = abs(ss - rf) <= 1e-6 * abs(rf) + 1e-10 * max(1.0, f0)
-        if not okf and rf < 1e10 and not math.isfinite(ss) and \
+        if not okf and ((rf < 1e10 and not math.isfinite(ss)) or
+                        (rf >= 1e10 and math.isfinite(ss))) and \
                 self.knife_edge(rx, rf):
             self.probe('solution_on_the_edge_of_ray_failure')
             self.check_bounds_and_pickups(key, ztol, inside, excursion)
@@ -592,10 +599,16 @@ class Sim:
         elif drv.consistent(res.x, rf):
             ss = self.merit()
             self.stats['oracle_checks'] += 1
-            if ss is None or not (
-                    (rf >= 1e10 and (math.isnan(ss) or ss >= 1e10)) or
-                    abs(ss - rf) <= 1e-6 * abs(rf) +
-                    1e-10 * max(1.0, sentinel(f0))):
+            okc = ss is not None and (
+                (rf >= 1e10 and (math.isnan(ss) or ss >= 1e10)) or
+                abs(ss - rf) <= 1e-6 * abs(rf) +
+                1e-10 * max(1.0, sentinel(f0)))
+            if not okc and ss is not None and (
+                    (rf < 1e10 and not math.isfinite(ss)) or
+                    (rf >= 1e10 and math.isfinite(ss))) and \
+                    self.knife_edge(rx, rf):
+                self.probe('solution_on_the_edge_of_ray_failure')
+            elif not okc:
                 raise Violation('state', f'C14/{key}/state/objective',
                                 f'run() returned fun={rf!r} at x={rx}, but '
                                 f'sum_squared() on the lens is {ss!r}')
